@@ -40,3 +40,16 @@ class InPlace:
         if c1.shape != c2.shape or not np.array_equal(c1, c2, equal_nan=True):
             raise RepeatCallDiffers(f"at {x.tolist()}: first {c1.tolist()} second {c2.tolist()}")
         return r2
+
+
+def clear_lru(*modules):
+    """Clear every functools.lru_cache-style memo defined at module level in the given modules.  The harness
+    names no private function of optyx: a refactoring that renames or replaces one must not crash a check."""
+    for mod in modules:
+        for obj in list(vars(mod).values()):
+            cc = getattr(obj, "cache_clear", None)
+            if callable(cc):
+                try:
+                    cc()
+                except Exception:
+                    pass
